@@ -180,9 +180,14 @@ fn related(rng: &mut Rng, ip: u32, len: u32) -> (u32, u32) {
             (ip, l2)
         }
         2 => {
-            // nested inside
+            // nested inside: anywhere, or touching the first / last address of the enclosing block
             let l2 = rng.range(len as u64, 32) as u32;
-            (((id + rng.below(size)) & 0xffff_ffff) as u32, l2)
+            let at = match rng.below(4) {
+                0 => id,
+                1 => id + size - 1,
+                _ => id + rng.below(size),
+            };
+            ((at & 0xffff_ffff) as u32, l2)
         }
         3 => {
             // sibling: flip the last prefix bit
@@ -277,6 +282,7 @@ fn gen_tbl(rng: &mut Rng) -> String {
     let mut toks: Vec<String> = vec!["tbl".into()];
     let mut val = 1u32;
     let mut added: Vec<(u32, u32)> = Vec::new();
+    let mut direct: Vec<u32> = Vec::new();
     if rng.coin(1, 12) {
         toks.push(format!("G,{}", val));
         val += 1;
@@ -306,9 +312,16 @@ fn gen_tbl(rng: &mut Rng) -> String {
             60..=67 => {
                 toks.push(format!("D,{},{}", ip2, val));
                 added.push((ip2, 32));
+                direct.push(ip2);
             }
             68..=71 => {
-                let a = if !added.is_empty() && rng.coin(1, 2) { rng.pick(&added).0 } else { ip2 };
+                let a = if !direct.is_empty() && rng.coin(2, 3) {
+                    *rng.pick(&direct)
+                } else if !added.is_empty() && rng.coin(1, 2) {
+                    rng.pick(&added).0
+                } else {
+                    ip2
+                };
                 toks.push(format!("X,{}", a));
             }
             72..=81 => {
@@ -810,6 +823,7 @@ fn run_tbl(ops: &[&str]) -> Outcome {
             "X" => {
                 let old = table.remove_direct(Ipv4Address::from(u(1)));
                 let want = refmap.remove(&(32, u(1) as u64));
+                stat(if want.is_some() { "tbl_remove_direct_present" } else { "tbl_remove_direct_absent" });
                 if old != want {
                     errs.push(format!("{}: remove_direct returned {:?}, finite map had {:?}", tok, old, want));
                 }
